@@ -705,10 +705,25 @@ def rule_sibling_splice(ctx):
                     break
         sk[name] = (b, bounds)
         r.site('%s: slice-bound skeletons %s' % (b.path, sorted(bounds)), b.span(), 'ok')
+        # "everything up to its end counts as consumed": the cursor a slice starts at only moves forward, cursor := max(cursor, end)
+        def has_monotone(e):
+            if isinstance(e, tuple) and e and e[0] == 'max':
+                flat = repr(e)
+                if "('CUR',)" in flat and "('F', 'end')" in flat:
+                    return True
+            return isinstance(e, tuple) and any(has_monotone(x) for x in e if isinstance(x, tuple))
+        starts = [e for nm, e in bounds if nm == 'start' and e != ('ZERO',)]
+        mono = bool(starts) and all(has_monotone(e) for e in starts)
+        r.site('%s: the copy cursor is max(cursor, replacement end): consumed text is never copied again' % b.path, b.span(),
+               'ok' if mono else 'violation')
+        if not mono:
+            r.violation('cursor:%s' % name, b.span(), b.path,
+                        'the position a copy starts from is not max(previous position, replacement end) (found %s): with nested or '
+                        'overlapping replacements already consumed inner text is copied again' % sorted(starts))
     (bs_, s1), (br_, s2) = sk['source'], sk['rope']
     if s1 != s2:
         only1, only2 = sorted(s1 - s2), sorted(s2 - s1)
-        r.sites[-1]['verdict'] = 'violation'
+        r.sites[-2]['verdict'] = 'violation'
         r.violation('skeleton', br_.span(), br_.path,
                     'source() and rope() slice the inner text with different position skeletons (source only: %s; rope only: %s): for '
                     'nested / overlapping replacements the rope no longer renders to source()' % (only1, only2))
